@@ -61,8 +61,10 @@ ASSUMPTIONS = [
     "services / embedded devices that share a type are all hosted (UpnpDevice keys further ones <type>#<serviceId> / "
     "<type>#<UDN>; only a third item with the same type AND the same id/UDN replaces the second); the model transcribes "
     "that keying (build) and the judge works on the instantiated tree",
-    "the server's base URI is http(s), not 127.0.0.1 / [::1] / 169.254 (the listener rejects those by design); IPv4, IPv6 "
-    "and named hosts are generated",
+    "the listener clause presupposes a description URL the listener does not refuse by design (is_usable_location: http(s), "
+    "parsed host not localhost / loopback / IPv4 link-local); IPv4, IPv6 and named hosts are generated, and so are refused "
+    "spellings (127.0.0.2, localhost, [::1], 169.254.x, IPv4-mapped loopback): there the responder must answer as usual and "
+    "the model (C03 listener) and the real listener must both ignore the messages",
     "requester and multicast target are IPv4",
 ]
 TRUSTED = [
@@ -75,6 +77,12 @@ TARGET = ("239.255.255.250", 1900)
 REQ_HOST = "192.168.1.9"
 M_SEARCH = "M-SEARCH * HTTP/1.1"
 DISCOVER = '"ssdp:discover"'
+
+
+# description URLs the listener refuses by design (ssdp_listener.is_usable_location): the responder must answer all
+# the same, the listener must ignore the messages
+UNUSABLE_BASES = ["http://127.0.0.1:8000", "http://127.0.0.2:8000", "http://localhost:8000", "http://LocalHost",
+                  "http://[::1]:8000", "http://169.254.10.20:80", "http://[::ffff:127.0.0.1]:8000"]
 
 
 def addr_tok(addr) -> str:
@@ -423,6 +431,8 @@ def run_recipe(ctx: Ctx, recipe: Dict[str, Any], cid: str) -> Case:
             lines.extend(cls_lines(tree))
             lines.extend(dev_lines(device))
             tags.update(tree_tags(device))
+            from async_upnp_client.ssdp_listener import is_usable_location
+            tags.add("location:" + ("usable" if is_usable_location(base_uri + url) else "refused-by-listener"))
 
             if via_server:
                 ann["start"] = ms()
@@ -706,7 +716,8 @@ def tree_cases(rng: random.Random, tree: Dict[str, Any], prefix: str, per_case: 
                 ops.append(["astop"])
         recipes.append({"tree": tree, "ops": ops, "tail": rng.choice([0, 0, 31000, 65000]),
                         "base": rng.choice(["http://192.168.1.5:8000", "http://10.0.0.1", "https://server.example:8443",
-                                            "http://[2001:db8::1]:80"]),
+                                            "http://[2001:db8::1]:80", "http://192.168.1.5:8000", "http://10.0.0.1"]
+                                           if rng.random() < 0.85 else UNUSABLE_BASES),
                         "url": rng.choice(["/device.xml", "/", "/desc/root.xml"]),
                         "boot": rng.choice([1, 1, 7, 12345]), "config": rng.choice([1, 1, 2]),
                         "always_root": rng.random() < 0.15, "via_server": rng.random() < 0.15,
@@ -817,6 +828,13 @@ CORPUS += [
     # audit C13-2: the whole SSDP side started and stopped through UpnpServer._async_start_ssdp / _async_stop_ssdp
     {"tree": _ROOT, "via_server": True, "ops": [["search", {"st": "ssdp:all", "mx": "2", "sel": 3}], ["advance", 100000], ["astop"]],
      "tail": 61000},
+]
+
+
+CORPUS += [
+    # round 5: a server whose description URL the listener refuses (other spellings of loopback): answered, but ignored
+    {"tree": _ROOT, "base": b, "ops": [["search", {"st": "ssdp:all"}], ["astart"], ["advance", 31000], ["astop"]]}
+    for b in ("http://127.0.0.2:8000", "http://localhost:8000", "http://[::1]:8000")
 ]
 
 
